@@ -9,13 +9,13 @@ LEVEL = "exploration"
 TECHNIQUE = "relation monitor over programs of propagation steps (group laws, magnification round trips, cross-propagator agreement) and closed-form reference monitor (off-axis / tilted Gaussian beams, Airy pattern) on the real propagators"
 LEVEL_TEXT = ("Programs of 2-6 angular-spectrum steps whose distances (both signs) sum to a common total must agree with the single step and "
               "with each other; zero distance and +z/-z pairs give the input; propagating with magnification m and back with 1/m recovers "
-              "the input up to a constant phase (an algebraic identity, checked to rounding on arbitrary fields). Pairs of propagators are "
+              "the input up to a constant phase (an algebraic identity, checked to rounding on arbitrary fields); grids finer than the wavelength and problems stated in nm..pm units (steps down to 1e-12) are included and a step must not depend on the length unit. Pairs of propagators are "
               "compared on coinciding grids with off-axis, asymmetric fields so that flips, transposes and conjugations show; all four are "
               "compared with the analytic off-axis, tilted Gaussian beam (amplitude, width, curvature, Gouy phase, position) on beams that "
               "are resolved by construction in every plane touched, and the lens with the Airy pattern. Exploration over programs.")
 LEVEL_NOTE = "Trusted: closed-form Gaussian beam in the e^{+ik r^2/2z} convention of the module (no e^{ikz}); scipy J1. Sampling margins are part of the generator, no case is skipped as unresolved."
 RULE = "case = (clause, N, wavelength, spacing(s), distance(s), magnification, field / beam parameters); non-trivial when the field is not point-symmetric; distinct by parameters"
-ASSUMPTIONS = ["even square grids", "angularSpectrum adds a constant phase k/2 (1-m)/z 1e-10 (its r1sq guard); constant phases are not judged"]
+ASSUMPTIONS = ["even square grids"]
 REQUIRED = ["opticalpropagation.py:angularSpectrum", "opticalpropagation.py:oneStepFresnel", "opticalpropagation.py:twoStepFresnel", "opticalpropagation.py:lensAgainst"]
 REQUIRED_COUNTERS = ["programs", "round_trips", "cross_pairs", "gaussian_beams", "airy_patterns"]
 
@@ -47,6 +47,12 @@ def check_group(ctx, op, rng):
     N = int(rng.choice([8, 16, 32, 64, 9, 15, 33]))         # the group laws are algebraic: odd grids too
     lam = float(10 ** rng.uniform(-6.5, -5))
     d = float(10 ** rng.uniform(-4, -2))
+    regime = float(rng.random())
+    if regime < 0.2:
+        d = lam * float(rng.uniform(0.12, 0.68))          # sampling finer than the wavelength: the paraxial operator is the same group
+    elif regime < 0.4:
+        cu0 = float(10 ** rng.uniform(-10, -3))            # the same problem in other length units (nm .. pm): distances down to 1e-12
+        lam, d = lam * cu0, d * cu0
     zc = N * d * d / lam                      # natural distance scale of the grid
     total = float(rng.choice([-1, 1]) * zc * 10 ** rng.uniform(-1, 1))
     kind = fields.KINDS[int(rng.integers(0, 6))]
@@ -65,6 +71,11 @@ def check_group(ctx, op, rng):
     arg = np.pi * lam * (np.abs(parts).sum() + abs(total)) / (4 * d * d)     # largest transfer-function phase handled
     tol = (1e-12 + 8 * 2.3e-16 * arg) * mx * 50
     ctx.close("AS_composition", V, single, tol, "angularSpectrum:distances_do_not_add", wit, scale=mx)
+    # only ratios of lengths matter: the same step with every length in other units is the same array
+    cu = float(10 ** rng.uniform(-9, 3))
+    scaled = op.angularSpectrum(U, lam * cu, d * cu, d * cu, total * cu)
+    ctx.close("AS_unit_invariance", scaled, single, (1e-12 + 16 * 2.3e-16 * np.pi * lam * abs(total) / (4 * d * d)) * mx * 50,
+              "angularSpectrum:depends_on_absolute_length_scale", dict(wit, unit_factor=cu), scale=mx)
     # another split of the same total
     h = float(rng.uniform(-2, 3)) * total
     W = op.angularSpectrum(op.angularSpectrum(U, lam, d, d, h), lam, d, d, total - h)
@@ -130,8 +141,8 @@ def check_beams(ctx, op, rng):
     wm = dict(base, m=m, z=zm)
     ctx.case("gauss_AS_mag", key=("gASm", N, lam, d1, w0, x0, y0, kx, m, zm), nontrivial=True, sample=wm)
     ctx.close("AS_mag_vs_gaussian_beam", upto_phase(gotm, refm), refm, 2e-5, "angularSpectrum:analytic_beam:magnification", wm)
-    # the only constant phase the module adds is that of its r1sq guard: k/2 (1-m)/z * 1e-10
-    ctx.close("AS_mag_vs_gaussian_beam_constant_phase", np.angle(np.vdot(refm, gotm)), k / 2 * (1 - m) / zm * 1e-10, 1e-6,
+    # the analytic solution fixes the phase of the field too (Gouy phase): no constant offset
+    ctx.close("AS_mag_vs_gaussian_beam_constant_phase", np.angle(np.vdot(refm, gotm)), 0.0, 1e-6,
               "angularSpectrum:analytic_beam:gouy_phase", wm)
     # --- magnification within 1e-5 of one (but not one): still the exact scaled propagation
     mn = 1.0 + float(rng.choice([-1, 1])) * float(10 ** rng.uniform(-8, -5))
